@@ -53,11 +53,11 @@ Proof.
 Qed.
 
 (* what LiteralData.__bytearray__ emits is what the RFC decoder reads *)
-Lemma lit_body_rfc l b : lit_body l = Some b -> l_mtime l < 4294967296 ->
+Lemma lit_body_rfc l b : lit_body l = Some b ->
   rfc_lit_dec b = Some (l_format l, l_name l, l_mtime l, l_data l).
 Proof.
-  unfold lit_body. intros H Ht.
-  destruct ((0 <=? l_format l) && (l_format l <? 256) && (Z.of_nat (length (l_name l)) <=? 255) && latin1_ok (l_name l) && (0 <=? l_mtime l)) eqn:C; [|discriminate].
+  unfold lit_body. intros H.
+  destruct ((0 <=? l_format l) && (l_format l <? 256) && (Z.of_nat (length (l_name l)) <=? 255) && latin1_ok (l_name l) && (0 <=? l_mtime l) && (l_mtime l <? 4294967296)) eqn:C; [|discriminate].
   inversion H; subst; clear H. repeat (apply andb_prop in C as [C ?]).
   rewrite (int_to_bytes_fits (l_mtime l) 4) by (change (256 ^ 4) with 4294967296; lia).
   change (Z.to_nat 4) with 4%nat. destruct (be4_shape (l_mtime l)) as (a & b & c & d & B).
@@ -72,23 +72,34 @@ Qed.
 Lemma lit_body_wf l b : lit_body l = Some b -> wf_bytes (l_data l) -> wf_bytes b.
 Proof.
   unfold lit_body. intros H Hd.
-  destruct ((0 <=? l_format l) && (l_format l <? 256) && (Z.of_nat (length (l_name l)) <=? 255) && latin1_ok (l_name l) && (0 <=? l_mtime l)) eqn:C; [|discriminate].
+  destruct ((0 <=? l_format l) && (l_format l <? 256) && (Z.of_nat (length (l_name l)) <=? 255) && latin1_ok (l_name l) && (0 <=? l_mtime l) && (l_mtime l <? 4294967296)) eqn:C; [|discriminate].
   inversion H; subst; clear H. repeat (apply andb_prop in C as [C ?]).
   cbn [app]. constructor; [lia|]. constructor; [lia|].
   apply wf_bytes_app. split; [apply latin1_ok_wf; assumption|]. apply wf_bytes_app. split; [unfold int_to_bytes; apply wf_be|assumption].
 Qed.
 
 (* round trip of the literal body: consumes exactly its own length, following data untouched *)
-Theorem lit_roundtrip l b r : lit_body l = Some b -> l_mtime l < 4294967296 -> wf_bytes (l_data l) ->
+Theorem lit_roundtrip l b r : lit_body l = Some b -> wf_bytes (l_data l) ->
   lit_parse (Z.of_nat (length b)) (b ++ r) = Some (l, r).
 Proof.
-  intros H Ht Hd. rewrite (lit_parse_eq_rfc b r _ _ _ _ (lit_body_wf l b H Hd) (lit_body_rfc l b H Ht)).
+  intros H Hd. rewrite (lit_parse_eq_rfc b r _ _ _ _ (lit_body_wf l b H Hd) (lit_body_rfc l b H)).
   destruct l; reflexivity.
 Qed.
 
-(* a time that needs five octets (after 2106-02-07) is emitted as five octets: own output read back differently *)
-Theorem lit_time_overflow_refuted :
-  exists l b l' r', lit_body l = Some b /\ lit_parse (Z.of_nat (length b)) (b ++ [170]) = Some (l', r') /\
+(* a time that does not fit four octets is refused, never emitted *)
+Theorem lit_time_refused l : 4294967296 <= l_mtime l -> lit_body l = None.
+Proof.
+  intro H. unfold lit_body. replace (l_mtime l <? 4294967296) with false by lia. rewrite andb_false_r. reflexivity.
+Qed.
+Theorem lit_body_time l b : lit_body l = Some b -> 0 <= l_mtime l < 4294967296.
+Proof.
+  unfold lit_body. destruct ((0 <=? l_format l) && (l_format l <? 256) && (Z.of_nat (length (l_name l)) <=? 255) && latin1_ok (l_name l) && (0 <=? l_mtime l) && (l_mtime l <? 4294967296)) eqn:C; [|discriminate].
+  intros _. repeat (apply andb_prop in C as [C ?]). lia.
+Qed.
+
+(* the emitter before the repair: a time after 2106-02-07 came out as five octets and was read back differently *)
+Theorem lit_time_overflow_prefix_refuted :
+  exists l b l' r', lit_body_prefix l = Some b /\ lit_parse (Z.of_nat (length b)) (b ++ [170]) = Some (l', r') /\
     l_mtime l' <> l_mtime l /\ l_data l' <> l_data l.
 Proof.
   exists {| l_format := 98; l_name := []; l_mtime := 4294967296; l_data := [97; 98; 99] |}.
@@ -119,35 +130,60 @@ Proof.
   intro Hk. destruct (list8 _ Hk) as (a & b & c & d & e & f & g & h & K). unfold ops_body. rewrite K. reflexivity.
 Qed.
 
-(* ================================================================== format 't' read back as latin-1 *)
-Theorem text_t_refuted : exists t, contents {| l_format := 116; l_name := []; l_mtime := 0; l_data := utf8 t |} <> VLatin1 t.
-Proof. exists [233]. vm_compute. discriminate. Qed.
+(* ================================================================== text read back *)
+(* Unicode scalar values: what str.encode('utf-8') accepts *)
+Definition valid_cp (c : Z) : bool := (0 <=? c) && (c <? 1114112) && negb ((55296 <=? c) && (c <? 57344)).
 
-Definition defect_text_t (format : Z) (t : list Z) : bool := (format =? 116) && existsb (fun c => negb ((0 <=? c) && (c <? 128))) t.
+Ltac tst := match goal with |- context [if ?a <? ?b then _ else _] => let E := fresh "E" in destruct (a <? b) eqn:E; try lia end.
+Ltac tstb := match goal with |- context [if ?b then _ else _] => replace b with true by (symmetry; unfold cont; lia) end.
 
-Lemma utf8_ascii t : forallb (fun c => (0 <=? c) && (c <? 128)) t = true -> utf8 t = t.
+Lemma utf8_decode_cp c rest : valid_cp c = true -> utf8_decode (utf8_cp c ++ rest) = option_map (cons c) (utf8_decode rest).
+Proof.
+  unfold valid_cp. intro V. unfold utf8_cp.
+  pose proof (Z.div_mod c 64 ltac:(discriminate)) as D1. pose proof (Z.mod_pos_bound c 64 eq_refl) as B1.
+  pose proof (Z.div_mod (c / 64) 64 ltac:(discriminate)) as D2. pose proof (Z.mod_pos_bound (c / 64) 64 eq_refl) as B2.
+  pose proof (Z.div_mod (c / 64 / 64) 64 ltac:(discriminate)) as D3. pose proof (Z.mod_pos_bound (c / 64 / 64) 64 eq_refl) as B3.
+  replace (c / 4096) with (c / 64 / 64) by (rewrite Z.div_div by lia; reflexivity).
+  replace (c / 262144) with (c / 64 / 64 / 64) by (rewrite !Z.div_div by lia; reflexivity).
+  remember (c mod 64) as r0. remember (c / 64) as q1. remember (q1 mod 64) as r1. remember (q1 / 64) as q2.
+  remember (q2 mod 64) as r2. remember (q2 / 64) as q3.
+  destruct (c <? 128) eqn:C1; [|destruct (c <? 2048) eqn:C2; [|destruct (c <? 65536) eqn:C3]]; cbn [app utf8_decode].
+  - rewrite C1. replace (0 <=? c) with true by lia. reflexivity.
+  - repeat tst. tstb. do 2 f_equal. lia.
+  - repeat tst. tstb. do 2 f_equal. lia.
+  - repeat tst. tstb. do 2 f_equal. lia.
+Qed.
+
+(* the strict UTF-8 decoder inverts text_to_bytes on every Python string that can be encoded *)
+Theorem utf8_roundtrip t : forallb valid_cp t = true -> utf8_decode (utf8 t) = Some t.
 Proof.
   induction t as [|c t IH]; cbn [forallb utf8 flat_map]; intro H; [reflexivity|].
-  apply andb_prop in H as [Hc Ht]. fold (utf8 t). rewrite (IH Ht). unfold utf8_cp.
-  destruct (c <? 128) eqn:E; [reflexivity|lia].
+  apply andb_prop in H as [Hc Ht]. fold (utf8 t). rewrite (utf8_decode_cp c (utf8 t) Hc), (IH Ht). reflexivity.
 Qed.
 
-(* outside the defect class a text literal reads back as the text that went in *)
-Theorem text_t_outside_defect name mtime t comp : defect_text_t 116 t = false ->
-  match m_body (new_text 116 name mtime t comp) with BLit l => contents l = VLatin1 t | _ => False end.
+(* text given to PGPMessage.new with a textual format reads back as the same text, for every Unicode string *)
+Theorem text_roundtrip fmt name mtime t comp : fmt = 116 \/ fmt = 117 -> forallb valid_cp t = true ->
+  match m_body (new_text fmt name mtime t comp) with BLit l => contents l = VText t | _ => False end.
 Proof.
-  unfold defect_text_t. change (116 =? 116) with true. cbn [andb]. intro H.
-  unfold new_text, new_msg. cbn [m_body]. unfold contents. cbn [l_format l_data]. change (116 =? 116) with true. cbv iota.
-  f_equal. apply utf8_ascii.
-  apply forallb_forall. intros c Hc. destruct ((0 <=? c) && (c <? 128)) eqn:E; [reflexivity|].
-  assert (existsb (fun c => negb ((0 <=? c) && (c <? 128))) t = true); [|congruence].
-  apply existsb_exists. exists c. rewrite E. auto.
+  intros F V. unfold new_text, new_msg. cbn [m_body]. unfold contents. cbn [l_format l_data].
+  rewrite (utf8_roundtrip t V). destruct F as [-> | ->]; reflexivity.
 Qed.
 
-(* binary and UTF-8 formats hand back the stored octets (decoding 'u' is Python's codec) *)
-Theorem contents_octets l : l_format l <> 116 ->
-  contents l = if l_format l =? 117 then VUtf8 (l_data l) else VBytes (l_data l).
-Proof. intro H. unfold contents. destruct (l_format l =? 116) eqn:E; [lia|reflexivity]. Qed.
+(* the reader before the repair: format 't' was decoded latin-1 although stored as UTF-8 *)
+Theorem text_t_prefix_refuted :
+  exists t, forallb valid_cp t = true /\
+    contents_prefix {| l_format := 116; l_name := []; l_mtime := 0; l_data := utf8 t |} <> VText t.
+Proof. exists [233]. split; [reflexivity|vm_compute; discriminate]. Qed.
+
+(* text of another producer that is not UTF-8 is still readable: latin-1, code point = octet *)
+Theorem text_t_foreign_latin1 l : l_format l = 116 -> utf8_decode (l_data l) = None -> contents l = VText (l_data l).
+Proof. intros F N. unfold contents. rewrite F, N. reflexivity. Qed.
+
+(* every other format marker hands back the stored octets *)
+Theorem contents_octets l : l_format l <> 116 -> l_format l <> 117 -> contents l = VBytes (l_data l).
+Proof.
+  intros H1 H2. unfold contents. destruct (l_format l =? 116) eqn:E1; [lia|]. destruct (l_format l =? 117) eqn:E2; [lia|]. reflexivity.
+Qed.
 
 (* ================================================================== framing *)
 Lemma frame_parse tag body x y : 0 <= tag < 64 -> small body -> frame tag body = Some x ->
@@ -244,7 +280,7 @@ Section Bytes.
   Inductive wf_pkt : pkt -> Prop :=
   | W_ops o : length (o_keyid o) = 8%nat -> memz (o_type o) sigtypes = true -> memz (o_pkalg o) pkalgs = true -> wf_pkt (POps o)
   | W_sig s b' : s_raw s = 4 :: b' -> sig_peek (s_raw s) = Some s -> small (s_raw s) -> wf_pkt (PSig s)
-  | W_lit l b : lit_body l = Some b -> l_mtime l < 4294967296 -> wf_bytes (l_data l) -> small b -> wf_pkt (PLit l)
+  | W_lit l b : lit_body l = Some b -> wf_bytes (l_data l) -> small b -> wf_pkt (PLit l)
   | W_comp a inner pb : valid_calg a = true -> Forall wf_pkt inner -> emit_pkts compress inner = Some pb ->
                         small (a :: compress a pb) -> wf_pkt (PComp a inner)
   | W_pkesk b : small (3 :: b) -> wf_pkt (PPkesk (3 :: b))
@@ -265,7 +301,7 @@ Section Bytes.
     (forall a inner pb, p = PComp a inner -> emit_pkts compress inner = Some pb -> rec pb = Ok inner) ->
     x <> [] /\ parse_one decompress rec (x ++ y) = Ok (p, y).
   Proof.
-    intros W E R. destruct W as [o Hk Ht Ha|s b' Hr Hp Hs|l b Hb Ht Hd Hs|a inner pb Hv Hf He Hs|b Hs|b Hs|b Hs|b Hs|b Hs|b Hl];
+    intros W E R. destruct W as [o Hk Ht Ha|s b' Hr Hp Hs|l b Hb Hd Hs|a inner pb Hv Hf He Hs|b Hs|b Hs|b Hs|b Hs|b Hs|b Hl];
       cbn [emit_pkt] in E.
     - (* one-pass *)
       destruct (ops_roundtrip o y Hk Ht Ha) as (b' & B & P & L).
@@ -279,7 +315,7 @@ Section Bytes.
     - (* literal *)
       rewrite Hb in E. destruct (frame_parse 11 b x y ltac:(lia) Hs E) as (NE & h & HP & T & Ln).
       split; [assumption|]. unfold parse_one. rewrite HP, T, Ln. cbn [Z.eqb Pos.eqb].
-      rewrite (lit_roundtrip l b y Hb Ht Hd). reflexivity.
+      rewrite (lit_roundtrip l b y Hb Hd). reflexivity.
     - (* compressed *)
       rewrite Hv in E. fold (emit_pkts compress inner) in E. rewrite He in E.
       destruct (frame_parse 8 (a :: compress a pb) x y ltac:(lia) Hs E) as (NE & h & HP & T & Ln).
@@ -327,7 +363,7 @@ Section Bytes.
   Qed.
   Lemma wf_tag_body p t b : wf_pkt p -> tag_body p = Some (t, b) -> 0 <= t < 64 /\ small b.
   Proof.
-    intros W E. destruct W as [o Hk Ht Ha|s b' Hr Hp Hs|l b0 Hb Ht Hd Hs|a inner pb Hv Hf He Hs|b0 Hs|b0 Hs|b0 Hs|b0 Hs|b0 Hs|b0 Hl];
+    intros W E. destruct W as [o Hk Ht Ha|s b' Hr Hp Hs|l b0 Hb Hd Hs|a inner pb Hv Hf He Hs|b0 Hs|b0 Hs|b0 Hs|b0 Hs|b0 Hs|b0 Hl];
       cbn [tag_body] in E; try (inversion E; subst; split; [lia|assumption]).
     - inversion E; subst. split; [lia|]. unfold small, ops_body. rewrite !app_length, Hk. cbn [length]. lia.
     - rewrite Hb in E. inversion E; subst. split; [lia|assumption].
@@ -449,10 +485,10 @@ Proof.
     constructor; [|constructor].
     eapply (W_comp id_compress 2 _ _ eq_refl); [|vm_compute; reflexivity|vm_compute; reflexivity].
     constructor; [apply W_ops; reflexivity|]. constructor.
-    + eapply W_lit; [vm_compute; reflexivity|vm_compute; reflexivity|repeat constructor; lia|vm_compute; reflexivity].
+    + eapply W_lit; [vm_compute; reflexivity|repeat constructor; lia|vm_compute; reflexivity].
     + constructor; [|constructor]. eapply W_sig; [reflexivity|vm_compute; reflexivity|vm_compute; reflexivity].
 Qed.
 
 Lemma example_framing_premises :
   wf_pkt id_compress (PLit lit_example) /\ tag_body id_compress (PLit lit_example) = Some (11, [98; 0; 0; 0; 0; 0; 104; 105]).
-Proof. split; [eapply W_lit; [vm_compute; reflexivity|vm_compute; reflexivity|repeat constructor; lia|vm_compute; reflexivity]|reflexivity]. Qed.
+Proof. split; [eapply W_lit; [vm_compute; reflexivity|repeat constructor; lia|vm_compute; reflexivity]|reflexivity]. Qed.
